@@ -122,7 +122,9 @@ theorem stripLoop_spec (all : List Nat) : ∀ fuel r out, stripLoop all fuel r =
     intro r out h
     simp only [stripLoop] at h
     split at h
-    · simp at h
+    · simp only [Except.ok.injEq] at h
+      subst h
+      exact ⟨List.Sublist.refl _, fun n hn => .inr hn⟩
     · rename_i id nm hl
       obtain ⟨h1, h2⟩ := ih _ _ h
       have hd : r.dropLast.Sublist r := List.dropLast_sublist r
